@@ -3,17 +3,19 @@
 open Model
 open Zu
 
-type vw = { exts : (int * int) list; ops : op list; data : int list }
+type vw = { exts : (int * int) list; ops : op list; data : int list; share : int option }
+(* share = Some k: this operand is a view over operand k's root (same storage): aliasing operands *)
 type case = vw array   (* a, b, c *)
 
 let has_ge = ref false   (* set by --has-ge: the library defines >= for rank >= 2 *)
 let rank0 = ref false    (* set by --rank0: comparisons between rank-0 arrays compile, generate some *)
+let alias = ref false    (* set by --alias: the harness understands xshare (operands over one root) *)
 let names = [| "a"; "b"; "c" |]
 let base_of k = 10000 * k
 
 let view_of (k : int) (w : vw) : view option =
   match run_ops w.ops (root_view (List.map (fun (f, l) -> (z f, z l)) w.exts)) with
-  | Some v -> Some { lay = v.lay; base = z (i v.base + base_of k) }
+  | Some v -> Some { lay = v.lay; base = z (i v.base + base_of (match w.share with Some j -> j | None -> k)) }
   | None -> None
 
 let b01 b = if b then "1" else "0"
@@ -51,9 +53,11 @@ let case_text (id : string) (c : case) : string =
   pr ("case " ^ id);
   Array.iteri
     (fun k w ->
-      pr (Printf.sprintf "xroot %s %d %s" names.(k) (List.length w.exts) (join " " (fun (f, l) -> Printf.sprintf "%d %d" f l) w.exts));
+      (match w.share with
+       | Some j -> pr (Printf.sprintf "xshare %s %s" names.(k) names.(j))
+       | None -> pr (Printf.sprintf "xroot %s %d %s" names.(k) (List.length w.exts) (join " " (fun (f, l) -> Printf.sprintf "%d %d" f l) w.exts)));
       List.iter (fun o -> pr (Printf.sprintf "xop %s %s" names.(k) (Views.op_text o))) w.ops;
-      pr (Printf.sprintf "xdata %s %s" names.(k) (join " " string_of_int w.data)))
+      if w.share = None then pr (Printf.sprintf "xdata %s %s" names.(k) (join " " string_of_int w.data)))
     c;
   pr "cmp";
   pr "end";
@@ -69,7 +73,7 @@ let realise (sizes : int list) (contents : int list) : vw =
   (match run_ops ops (root_view (List.map (fun (f, l) -> (z f, z l)) exts)) with
    | Some v -> List.iteri (fun k x -> let a = i (e_addr v (z k)) in if a >= 0 && a < n then data.(a) <- x) contents
    | None -> ());
-  { exts; ops; data = Array.to_list data }
+  { exts; ops; data = Array.to_list data; share = None }
 
 let perturb_sizes (s : int list) : int list =
   if chance 55 then s
@@ -91,11 +95,51 @@ let gen_case0 () : case * string list =
   let x = rnd 3 in
   let y = if chance 40 then x else rnd 3 in
   let w = if chance 30 then x else rnd 3 in
-  let mk v = { exts = []; ops = []; data = [ v ] } in
+  let mk v = { exts = []; ops = []; data = [ v ]; share = None } in
   ([| mk x; mk y; mk w |], [ "rank0"; "same_sizes_ab"; (if x = y then "equal_ab" else "unequal_ab"); "nonempty" ])
 
-let gen_case () : case * string list =
+(* aliasing operands: a, b (and sometimes c) are views over ONE root -- same base pointer, different strides / offsets *)
+let gen_shared () : (case * string list) option =
+  let r = pick [ 2; 2; 3 ] in
+  let n = pick [ 2; 3; 3 ] in
+  let exts = if chance 70 then List.init r (fun _ -> (0, n)) else List.init r (fun _ -> (0, pick [ 1; 2; 3 ])) in
+  let total = prod (List.map snd exts) in
+  let data = if chance 20 then List.init total (fun k -> (k / (max 1 (snd (List.nth exts (r - 1))))) mod 3) else List.init total (fun _ -> rnd 3) in
+  let root = root_view (List.map (fun (f, l) -> (z f, z l)) exts) in
+  let cfg = { Views.maxrank = 3; maxops = 4; rebased = false; maxd = 4 } in
+  let random_ops () =
+    let rec go k v acc = if k = 0 then (List.rev acc, v) else
+      match Views.candidate cfg v with
+      | Some o -> (match run_ops [ o ] v with Some v' -> go (k - 1) v' (o :: acc) | None -> go (k - 1) v acc)
+      | None -> go (k - 1) v acc in
+    go (rnd_range 0 4) root [] in
+  let template_ops () =   (* views of rank r-1 starting at the root's first element, with different strides *)
+    let o = pick [ [ OIndex (z 0) ]; [ OTransposed; OIndex (z 0) ]; [ ODiagonal ]; [ ORotated; OIndex (z 0) ]; [ OUnrotated; OIndex (z 0) ] ] in
+    match run_ops o root with Some v -> Some (o, v) | None -> None in
+  let gen_one () = if chance 45 then template_ops () else Some (random_ops ()) in
+  match gen_one () with
+  | None -> None
+  | Some (aops, av) ->
+    let ra = List.length av.lay in
+    if ra = 0 then None else
+    let rec find tries = if tries = 0 then None else
+      match gen_one () with
+      | Some (bops, bv) when List.length bv.lay = ra -> Some (bops, bv)
+      | _ -> find (tries - 1) in
+    (match find 40, find 40 with
+     | Some (bops, bv), Some (cops, _) ->
+       let a = { exts; ops = aops; data; share = None } in
+       let b = { exts; ops = bops; data = []; share = Some 0 } in
+       let c = { exts; ops = cops; data = []; share = Some 0 } in
+       let sa = il (l_sizes av.lay) and sb = il (l_sizes bv.lay) in
+       Some ([| a; b; c |], [ Printf.sprintf "rank%d" ra; "aliasing_operands"; (if sa = sb then "same_sizes_ab" else "diff_sizes_ab");
+                              (if i av.base = i bv.base then "alias_same_base" else "alias_diff_base");
+                              (if prod sa = 0 || prod sb = 0 then "some_empty" else "nonempty") ])
+     | _ -> None)
+
+let rec gen_case () : case * string list =
   if !rank0 && chance 4 then gen_case0 () else
+  if !alias && chance 10 then (match gen_shared () with Some r -> r | None -> gen_case ()) else
   let r = weighted [ (6, 1); (8, 2); (6, 3); (1, 4) ] in
   let sa = List.init r (fun _ -> weighted [ (1, 0); (3, 1); (4, 2); (3, 3) ]) in
   let ca = List.init (prod sa) (fun _ -> rnd 3) in
@@ -111,13 +155,15 @@ let gen_case () : case * string list =
 
 let parse_cases (text : string) : (string * case) list =
   let cases = ref [] and id = ref "" in
-  let cur = ref [| { exts = []; ops = []; data = [] }; { exts = []; ops = []; data = [] }; { exts = []; ops = []; data = [] } |] in
+  let e0 = { exts = []; ops = []; data = []; share = None } in
+  let cur = ref [| e0; e0; e0 |] in
   let idx n = match n with "a" -> 0 | "b" -> 1 | _ -> 2 in
   let rec pairs = function a :: b :: t -> (int_of_string a, int_of_string b) :: pairs t | _ -> [] in
   List.iter
     (fun line ->
       match Views.words line with
-      | [ "case"; c ] -> id := c; cur := Array.make 3 { exts = []; ops = []; data = [] }
+      | [ "case"; c ] -> id := c; cur := Array.make 3 e0
+      | [ "xshare"; n; m ] -> !cur.(idx n) <- { e0 with exts = !cur.(idx m).exts; share = Some (idx m) }
       | "xroot" :: n :: _ :: rest -> !cur.(idx n) <- { !cur.(idx n) with exts = pairs rest }
       | "xop" :: n :: toks -> !cur.(idx n) <- { !cur.(idx n) with ops = !cur.(idx n).ops @ [ Views.parse_op toks ] }
       | "xdata" :: n :: rest -> !cur.(idx n) <- { !cur.(idx n) with data = List.map int_of_string rest }
